@@ -302,7 +302,7 @@ func (vc *VC) paramLookup(fr *frame, name string) (Val, bool) {
 			// free variables are pointers to the captured variable: a name in a contract denotes the
 			// variable's value when the closure is entered
 			if pt, ok := fv.Type().Underlying().(*types.Pointer); ok && isCellType(pt.Elem()) {
-				return Val{T: vc.load(fr.entrySt, fr.freeVars[i].T, pt.Elem()), Typ: pt.Elem()}, true
+				return Val{T: fr.freeVars[i].T, Typ: pt.Elem(), Cell: true}, true
 			}
 		}
 	}
